@@ -39,79 +39,21 @@ VARIABLES sk, obj, ens
 dvars == <<sk, obj, ens>>
 
 Live == DOMAIN sk
-Max2(a, b) == IF a > b THEN a ELSE b
-Min2(a, b) == IF a < b THEN a ELSE b
-SumSeq(s) == FoldLeft(LAMBDA a, b : a + b, 0, s)
-Bit(x, e) == (x \div 2^e) % 2
-BitOr(a, b) == SumSeq([e \in 1..8 |-> 2^(e - 1) * Max2(Bit(a, e - 1), Bit(b, e - 1))])
-TrailingOnes(x) == CHOOSE t \in 0..8 : (\A e \in 0..(t - 1) : Bit(x, e) = 1) /\ Bit(x, t) = 0
-RECURSIVE MergeSorted(_, _)
-MergeSorted(a, b) == IF a = <<>> THEN b ELSE IF b = <<>> THEN a
-   ELSE IF Head(a) <= Head(b) THEN <<Head(a)>> \o MergeSorted(Tail(a), b)
-   ELSE <<Head(b)>> \o MergeSorted(a, Tail(b))
-Pick(s, p) == [i \in 1..(Len(s) \div 2) |-> s[2 * i - 1 + p]]     \* 0-based positions of parity p
-CoinAt(cs, i) == IF i <= Len(cs) THEN cs[i] ELSE 0
-
-(* compactor *)
-CNew(lgw) == [items |-> <<>>, lgw |-> lgw, state |-> 0, coin |-> 0, nsec |-> InitSec, gen |-> 1]
-SSize(c) == SecSizes[c.gen]
-NomCap(c) == 2 * c.nsec * SSize(c)
-CanGrow(c) == c.state >= 2^(c.nsec - 1) /\ c.gen < Len(SecSizes)
-Ensure(c) == IF CanGrow(c) THEN [c EXCEPT !.gen = @ + 1, !.nsec = 2 * @] ELSE c
-RECURSIVE EnsureAll(_)
-EnsureAll(c) == IF CanGrow(c) THEN EnsureAll(Ensure(c)) ELSE c
-\* req_compactor::compact: [c, next, used]
-Compact(c, next, hra, coinIn) ==
-  LET num == Len(c.items)
-      secs == Min2(TrailingOnes(c.state) + 1, c.nsec)
-      nc0 == NomCap(c) \div 2 + (c.nsec - secs) * SSize(c)
-      nc == IF (num - nc0) % 2 = 1 THEN nc0 + 1 ELSE nc0
-      lo == IF hra THEN 0 ELSE nc                  \* 0-based, half open
-      hi == IF hra THEN num - nc ELSE num
-      odd == c.state % 2 = 1
-      coin == IF odd THEN 1 - c.coin ELSE coinIn
-      range == SubSeq(c.items, lo + 1, hi)
-      rest == SubSeq(c.items, 1, lo) \o SubSeq(c.items, hi + 1, num)
-  IN [c |-> Ensure([c EXCEPT !.items = rest, !.state = @ + 1, !.coin = coin]),
-      next |-> [next EXCEPT !.items = MergeSorted(@, Pick(range, coin))],
-      used |-> IF odd THEN 0 ELSE 1]
-\* req_compactor::merge
-CMerge(a, b) ==
-  LET coin == IF /\ MergeCoin \in {"adopt", "adopt0"} /\ b.state % 2 = 1
-                    /\ (IF MergeCoin = "adopt" THEN a.state % 2 = 0 ELSE a.state = 0)
-                 THEN b.coin ELSE a.coin
-  IN [EnsureAll([a EXCEPT !.state = BitOr(@, b.state), !.coin = coin]) EXCEPT !.items = MergeSorted(a.items, b.items)]
-
-(* sketch: lv = sequence of compactors *)
-Retained(lv) == SumSeq([h \in 1..Len(lv) |-> Len(lv[h].items)])
-MaxNom(lv) == SumSeq([h \in 1..Len(lv) |-> NomCap(lv[h])])
-\* req_sketch::compress from level h (1-based) on: [lv, used]
-RECURSIVE Compress(_, _, _, _, _)
-Compress(lv, h, hra, cs, ci) ==
-  IF h > Len(lv) THEN [lv |-> lv, used |-> ci]
-  ELSE IF Len(lv[h].items) >= NomCap(lv[h])
-       THEN LET lv1 == IF h = Len(lv) THEN Append(lv, CNew(h)) ELSE lv
-                r == Compact(lv1[h], lv1[h + 1], hra, CoinAt(cs, ci + 1))
-            IN Compress([lv1 EXCEPT ![h] = r.c, ![h + 1] = r.next], h + 1, hra, cs, ci + r.used)
-       ELSE Compress(lv, h + 1, hra, cs, ci)
+INSTANCE ReqMech      \* the mechanism operators (CNew, NomCap, Compact, CMerge, Compress, UpdLv, MergeLv, ...)
 
 MsAdd(b, x) == IF x \in DOMAIN b THEN [b EXCEPT ![x] = @ + 1] ELSE (x :> 1) @@ b
 MsCnt(b, x) == IF x \in DOMAIN b THEN b[x] ELSE 0
 MsUnion(a, b) == [x \in DOMAIN a \cup DOMAIN b |-> MsCnt(a, x) + MsCnt(b, x)]
-Fresh(hra) == [hra |-> hra, lv |-> <<CNew(0)>>, n |-> 0, all |-> <<>>, minI |-> 0, maxI |-> 0]
+Fresh(hra) == [hra |-> hra, lv |-> <<CNew(0, SecSizes)>>, n |-> 0, all |-> <<>>, minI |-> 0, maxI |-> 0]
 \* [s, used]
 UpdateRes(s, v, cs) ==
-  LET lv1 == [s.lv EXCEPT ![1].items = MergeSorted(@, <<v>>)]
-      r == IF Retained(lv1) = MaxNom(lv1) THEN Compress(lv1, 1, s.hra, cs, 0) ELSE [lv |-> lv1, used |-> 0]
+  LET r == UpdLv(s.lv, s.hra, SecSizes, v, cs)
   IN [s |-> [s EXCEPT !.lv = r.lv, !.n = @ + 1, !.all = MsAdd(@, v),
                       !.minI = IF s.n = 0 THEN v ELSE Min2(@, v), !.maxI = IF s.n = 0 THEN v ELSE Max2(@, v)],
       used |-> r.used]
 MergeRes(s, o, cs) ==
   IF o.n = 0 THEN [s |-> s, used |-> 0] ELSE
-  LET nl == Max2(Len(s.lv), Len(o.lv))
-      grown == [h \in 1..nl |-> IF h <= Len(s.lv) THEN s.lv[h] ELSE CNew(h - 1)]
-      lv1 == [h \in 1..nl |-> IF h <= Len(o.lv) THEN CMerge(grown[h], o.lv[h]) ELSE grown[h]]
-      r == IF Retained(lv1) >= MaxNom(lv1) THEN Compress(lv1, 1, s.hra, cs, 0) ELSE [lv |-> lv1, used |-> 0]
+  LET r == MergeLv(s.lv, o.lv, s.hra, SecSizes, cs)
   IN [s |-> [s EXCEPT !.lv = r.lv, !.n = @ + o.n, !.all = MsUnion(@, o.all),
                       !.minI = IF s.n = 0 THEN o.minI ELSE Min2(@, o.minI), !.maxI = IF s.n = 0 THEN o.maxI ELSE Max2(@, o.maxI)],
       used |-> r.used]
